@@ -3,7 +3,7 @@ from __future__ import annotations
 
 import ast
 
-from ..astutil import norm
+from ..astutil import dotted, norm
 from ..digest import contributions
 from ..dtree import bool_function, strip_casts
 from ..effects import scan_writes
@@ -24,6 +24,63 @@ def r_digest(ck: Checker) -> None:
     D.check_sink(ck, f, cs[0], "content", "R-DIGEST-DEP")
     D.check_encoding(ck, f, cs[0])
     ck.require_count("R-DIGEST-DEP", 10)
+
+
+def r_cid_own(ck: Checker) -> None:
+    """The content_id a node stores is computed from the node: positive pattern — on some path the value stored under "content_id" is the
+    `content_id` attribute of another object (a registered twin found by id ...): what happens to be registered decides the content id."""
+    f = ck.repo.func(NODE, "ASTNode.__post_init__")
+    n = 0
+    for fn in [x for x in (f.raw, f.node) if x is not None]:
+        for c in ast.walk(fn):
+            if isinstance(c, ast.Call) and dotted(c.func) in ("object.__setattr__", "setattr") and len(c.args) == 3 and isinstance(c.args[1], ast.Constant) and c.args[1].value == "content_id":
+                n += 1
+                vals = [c.args[2]]
+                if isinstance(c.args[2], ast.Name):
+                    vals = [st.value for st in ast.walk(fn) if isinstance(st, ast.Assign) and any(isinstance(t, ast.Name) and t.id == c.args[2].id for t in st.targets)]
+                vals = [b for v in vals for b in ([v.body, v.orelse] if isinstance(v, ast.IfExp) else [v])]
+                foreign = [v for v in vals if isinstance(v, ast.Attribute) and v.attr == "content_id" and norm(v.value) != "self"]
+                what = "the content_id stored in __post_init__ is computed from the node itself on every path"
+                if foreign:
+                    ck.violation("R-DIGEST-DEP", f, c, what, positive=True,
+                                 construct=f"__post_init__: content_id is taken from {norm(foreign[0])} on some path — the content id of a node depends on what is registered at the time")
+                    return
+    if n:
+        ck.holds("R-DIGEST-DEP", f, f.node, "the content_id stored in __post_init__ is never copied from another object")
+
+
+def r_isequal_ids_only(ck: Checker) -> None:
+    """is_equal decides from the two classes and the two content ids, nothing else.  Positive pattern: is_equal (helpers of later origin
+    followed) walks properties or children itself — a hand-written comparison next to the digest is a second definition of content
+    equality, and any difference between the two is a violation of "content_id equality is content equality"."""
+    f = ck.repo.func(NODE, "ASTNode.is_equal")
+    from .state_rules import _raw_functions
+    m_ = ck.repo.mod(NODE)
+    helpers = {q: fn for q, fn, _c in _raw_functions(m_) if ck.repo.is_new_helper(m_, q)}
+    todo = [f.raw or f.node]
+    seen: set[int] = set()
+    bad = None
+    while todo:
+        fn = todo.pop()
+        if id(fn) in seen:
+            continue
+        seen.add(id(fn))
+        for c in ast.walk(fn):
+            if isinstance(c, ast.Call):
+                nm = (dotted(c.func) or "").split(".")[-1]
+                if nm in ("get_properties", "get_property_fields", "get_child_nodes", "get_child_nodes_with_field", "iter_child_fields", "dfs", "bfs", "to_properties_dict") or \
+                        (isinstance(c.func, ast.Attribute) and c.func.attr == "children"):
+                    bad = c
+                if nm in helpers:
+                    todo.append(helpers[nm])
+            elif isinstance(c, ast.Attribute) and c.attr == "children":
+                bad = c
+    what = "is_equal compares the two classes and the two content ids only (one definition of content equality: the digest)"
+    if bad is not None:
+        ck.violation("R-ISEQUAL-FORM", f, bad, what, positive=True,
+                     construct=f"is_equal reaches {norm(bad)[:50]}: a hand-written structural comparison decides on some path instead of the content ids")
+    else:
+        ck.holds("R-ISEQUAL-FORM", f, f.node, what)
 
 
 def r_write_once(ck: Checker) -> None:
@@ -95,6 +152,8 @@ def run(ck: Checker) -> None:
     from .c10 import r_field_writes
     ck.guard("R-CID-WRITE-ONCE", lambda: r_field_writes(ck, "R-CID-WRITE-ONCE"))
     ck.guard("R-ISEQUAL-FORM", lambda: r_isequal(ck))
+    ck.guard("R-ISEQUAL-FORM", lambda: r_isequal_ids_only(ck))
+    ck.guard("R-DIGEST-DEP", lambda: r_cid_own(ck))
     ck.guard("R-PRESENCE", lambda: T.r_presence(ck))
     # the digest reads get_properties(skip_id, skip_origin, skip_content_id all True) and get_child_nodes_with_field: the place of the
     # base properties in the name order is irrelevant to it
